@@ -9,5 +9,5 @@ S=/tmp/seedscr.$seed; V=/tmp/seedver.$seed
 rm -rf $S; mkdir -p $S; git -C /repo archive HEAD | tar -x -C $S; (cd $S && git init -q . && git apply --whitespace=nowarn /verif/seeded/$seed/patch.diff) || { echo "patch does not apply"; rm -rf $S; exit 2; }
 rm -rf $V; mkdir -p $V/evidence $V/replays; ln -s /verif/specs $V/specs; ln -s /verif/known_findings.json $V/known_findings.json; ln -s /verif/replaytpl $V/replaytpl
 export GOFLAGS=-mod=mod GOPROXY=off GOSUMDB=off GOTOOLCHAIN=local
-for p in $props; do /verif/bin/govc check -prop $p -tier quick -repo $S -verif $V; echo "seed=$seed property=$p exit=$?"; done
+for p in $props; do /verif/bin/govc check -prop $p -tier quick $SEED_FAST -repo $S -verif $V; echo "seed=$seed property=$p exit=$?"; done
 rm -rf $S $V
